@@ -27,7 +27,7 @@ META = {
 }
 
 CLOCK = ('040229', '1230', '20040229', '123059', 123456789)
-TRIPLES = [('~', '*', ':'), ('|', '^', '>'), ('!', '+', '\\'), ('\x1c', '\x1d', ':'), ('~', '|', '>'), ('\n', '*', ':'), ('~', '*', '\\'), ('$', '*', '?')]
+TRIPLES = [('~', '*', ':'), ('|', '^', '>'), ('!', '+', '\\'), ('\x1c', '\x1d', ':'), ('~', '|', '>'), ('\n', '*', ':'), ('~', '*', '\\'), ('$', '*', '?'), ('\r', '*', ':')]
 BREAKS = ['', '\n', '\r\n', '\r', '\n\n']
 
 
@@ -44,7 +44,7 @@ def reencode(text, d2, brk):
     tail = pieces.pop()                      # unterminated rest (kept as is)
     segs = [p.lstrip('\r\n') for p in pieces]
     data = ''.join(segs).replace(d1[1], '').replace(d1[2], '')
-    if any(c in data for c in d2) or any(c in tail for c in d1 + d2) or (d2[0] in '\r\n' and brk):
+    if any(c in data for c in d2) or any(c in tail for c in d1 + d2) or (d2[0] in brk):       # CR terminator + LF break is a legal layout
         return None
     if len(set(d2)) < 3:
         return None
